@@ -119,6 +119,13 @@ CHECKS = {
         note="The density clause is verified as an identity of the sampler's acceptance function (uniform proposals accepted with probability P give density ~ P), not by sampling. Grid points only.",
         technique="exhaustive grid enumeration of the implementation's acceptance function and of step() under prescribed generator answers",
     ),
+    "C14": dict(
+        category="exploration",
+        text="Grid enumeration on the real Verlet integrator: 4 potentials (harmonic, quartic, soft pair, 3-atom LJ) x masses {1, 63.5, mixed} x 3 start geometries x 2 momentum patterns x dt {0.25,0.5,1,2} fs x steps {1,5,20}: integrate, negate momenta, integrate returns to the start (1e-9); max energy error over a trajectory at dt vs dt/2 has ratio in [3.2,4.8]. maxwell_boltzmann_distribution under prescribed standard-normal answers: momenta == z sqrt(m kT) exactly, forced variant gives 2KE/dof == kT and is a rescaling. Real Hamiltonian trials (HamiltonianCanonical): every execution to depth 2-3 (all normal-draw menu answers, check_move answers with max_attempts=2, verdicts): the captured threshold equals exp(-dH/kT) with the kinetic energy of the freshly drawn momenta, and the configuration presented to the criteria equals a reference velocity-Verlet trajectory started from the pre-trial positions and those momenta.",
+        design_ref="4-C14",
+        note="'All smooth potentials' is represented by four; time steps within their stability range. The normal law itself is numpy's (trusted).",
+        technique="exhaustive grid enumeration on the implementation plus stateless exploration of Hamiltonian trials with an independent reference integrator",
+    ),
 }
 
 NA_REASON = "check not built yet in this session (design in DESIGN.md); no claim is made"
